@@ -51,6 +51,10 @@ fn viol(driver: &str, class: String, text: &str, o: &Obs) -> Violation {
 pub fn replay(case: &Value) -> Option<Violation> {
     let text = case.get("text")?.as_str()?;
     let budget = case.get("budget").and_then(|b| b.as_u64()).unwrap_or(5_000_000);
+    if case.get("shallow").and_then(|b| b.as_bool()) == Some(true) {
+        let o = crate::engine::run_eval_shallow(text, budget);
+        return classify(&o).map(|c| viol("replay", c, text, &o));
+    }
     let (o, c) = check_text(text, budget);
     c.map(|c| viol("replay", c, text, &o))
 }
@@ -277,6 +281,87 @@ fn deep_nesting() -> Vec<(String, String)> {
     v
 }
 
+/// Inputs whose size, not their shape, is the difficulty: every stage of the interpreter meets a text, a token, a list, a heap
+/// structure or a run that is large in ONE dimension (a stage that needs native stack, or an index, in proportion to it breaks).
+/// `small`: sizes for the unoptimised build, where the stages that are quadratic in the number of names or constants are slow.
+/// (name, text, instruction budget)
+pub fn scale_inputs(small: bool) -> Vec<(String, String, u64)> {
+    let linear: &[usize] = &[1_000, 30_000, 300_000];
+    let tables: &[usize] = if small { &[1_000, 12_000] } else { &[1_000, 30_000, 70_000] };
+    let runs: &[usize] = &[1_000, 30_000, 200_000];
+    let mut v: Vec<(String, String, u64)> = Vec::new();
+    let mut add = |name: &str, n: usize, text: String| {
+        let name = format!("scale:{name}:{n}");
+        if !v.iter().any(|x: &(String, String, u64)| x.0 == name) {
+            v.push((name, text, 60_000_000))
+        }
+    };
+    for &n in linear {
+        // lexer: long runs of one kind of character / token
+        add("blanks", n, format!("{}print(1)", " ".repeat(n)));
+        add("newlines", n, format!("{}print(1)", "\n".repeat(n)));
+        add("tabs-and-blanks", n, format!("1{}+ 1", " \t\r\n".repeat(n / 4)));
+        add("comment-lines", n / 4, format!("{}print(1)", "// x\n".repeat(n / 4)));
+        add("comment-lines-blank", n / 8, format!("{}1", "  // commentaar\n\n".repeat(n / 8)));
+        add("one-long-comment", n, format!("1 //{}", "x".repeat(n)));
+        add("identifier", n, format!("stel {0} = 1\n{0}", "a".repeat(n)));
+        add("unknown-identifier", n, "b".repeat(n));
+        add("string-literal", n, format!("lengte(\"{}\")", "x".repeat(n)));
+        add("string-escapes", n, format!("lengte(\"{}\")", "\\n".repeat(n)));
+        add("string-unicode", n, format!("lengte(\"{}\")", "é€😀".repeat(n / 3)));
+        add("unterminated-string", n, format!("\"{}", "x".repeat(n)));
+        add("digits", n, "1".repeat(n));
+        add("float-digits", n, format!("1.{}", "1".repeat(n)));
+        add("float-integer-part", n, format!("{}.5", "1".repeat(n)));
+        add("illegal-characters", n, "@".repeat(n));
+        add("semicolons", n, format!("1{}", ";".repeat(n)));
+        // parser / compiler: long flat sequences
+        add("statements", n, "1;".repeat(n));
+        add("statement-lines", n, "1\n".repeat(n));
+        add("assignments", n / 4, format!("stel a = 0\n{}a", "a += 1\n".repeat(n / 4)));
+        add("array-literal", n, format!("lengte([{}1])", "1,".repeat(n)));
+        add("arguments", n, format!("functie f(a) {{ 1 }}\nf({}1)", "1,".repeat(n)));
+        add("declaration-chain", n, format!("{}1", "stel a = ".repeat(n)));
+        add("prints", n / 8, "print(\"{} {}\", 1, \"a\")\n".repeat(n / 8));
+    }
+    for &n in tables {
+        // symbol table, constant pool, code size
+        add("globals", n, format!("{}g0", (0..n).map(|i| format!("stel g{i} = {i}\n")).collect::<String>()));
+        add("locals", n, format!("functie f() {{ {} 1 }}\nf()", (0..n).map(|i| format!("stel l{i} = {i}\n")).collect::<String>()));
+        add("parameters", n, format!("functie f({}) {{ 1 }}\n1", (0..n).map(|i| format!("p{i}")).collect::<Vec<_>>().join(", ")));
+        add("int-constants", n, format!("stel s = 0\n{}s", (0..n).map(|i| format!("s = s + {}\n", i + 1000)).collect::<String>()));
+        // (every comparison with a pooled string or float passes the shadow heap's hook: keep these pools moderate)
+        add("string-constants", n.min(12_000), format!("{}1", (0..n.min(12_000)).map(|i| format!("\"s{i}\"\n")).collect::<String>()));
+        add("float-constants", n.min(12_000), format!("{}1", (0..n.min(12_000)).map(|i| format!("{i}.5\n")).collect::<String>()));
+        add("functions", n, format!("{}f0()", (0..n).map(|i| format!("functie f{i}() {{ {i} }}\n")).collect::<String>()));
+        add("scopes", n, format!("{}1", (0..n).map(|i| format!("{{ stel b{i} = {i} }}\n")).collect::<String>()));
+        add("redeclarations", n, format!("{}a", "stel a = 1\n".repeat(n)));
+    }
+    for &n in runs {
+        // run time: heap structures and runs that are large in one dimension; a collection runs at every function return
+        let list = format!("stel a = []\nstel i = 0\nzolang i < {n} {{ a = [i, a]; i += 1 }}\n");
+        add("list-then-call", n, format!("{list}functie f() {{ 1 }}\nf()"));
+        add("list-call-in-loop", n.min(30_000), format!("functie f(x) {{ [x] }}\nstel a = []\nstel i = 0\nzolang i < {} {{ a = [f(i), a]; i += 1 }}\nlengte(a)", n.min(3_000)));
+        add("list-printed", n, format!("{list}print(lengte(a))\nprint(a)\n1"));
+        add("list-as-result", n, format!("{list}a"));
+        add("list-as-function-result", n, format!("functie maak(n) {{ stel a = []\nstel i = 0\nzolang i < n {{ a = [i, a]; i += 1 }}\na }}\nstel l = maak({n})\nlengte(l)"));
+        add("list-in-builtins", n, format!("{list}print(type(a))\nprint(bool(a))\nlengte(a)"));
+        add("list-to-string", n, format!("{list}string(a)"));
+        add("list-compared", n, format!("{list}a == a"));
+        add("nested-array", n, format!("stel a = []\nstel i = 0\nzolang i < {n} {{ a = [a]; i += 1 }}\nfunctie f() {{ 1 }}\nf() + f()"));
+        add("cyclic-list", n, format!("{list}stel eind = a\nstel k = 0\nzolang k < {} {{ eind = eind[1]; k += 1 }}\neind[1] = a\nfunctie f() {{ 1 }}\nprint(lengte(string(f())))\nprint(a)\n1", n - 1));
+        add("wide-array-of-strings", n.min(60_000), format!("functie f() {{ [{}] }}\nlengte(f())", "\"s\", ".repeat(n.min(60_000))));
+        add("string-doubling", n, format!("stel s = \"ab\"\nstel i = 0\nzolang i < {} {{ s[0] = s; i += 1 }}\nfunctie f() {{ 1 }}\nf() + lengte(s)", [10usize, 18, 22][runs.iter().position(|x| *x == n).unwrap()]));
+        add("garbage-strings", n, format!("functie f(x) {{ string(x) }}\nstel i = 0\nstel s = \"\"\nzolang i < {} {{ s = f(i); i += 1 }}\ns", n.min(20_000)));
+        add("index-assignments", n, format!("stel a = [0, 0.5, \"x\"]\nstel i = 0\nzolang i < {n} {{ a[i % 3] = [i]; i += 1 }}\nfunctie f() {{ 1 }}\nf()"));
+        add("garbage-floats", n, format!("stel i = 0\nstel x = 0.5\nzolang i < {n} {{ x = x + 1.5; i += 1 }}\nfunctie f() {{ 1 }}\nf()"));
+        add("recursion", n, format!("functie f(n) {{ als n == 0 {{ 0 }} anders {{ 1 + f(n - 1) }} }}\nf({n})"));
+        add("loop-value", n, format!("stel i = 0\nstel r = zolang i < {n} {{ i += 1; [i] }}\nlengte(r)"));
+        add("continue-many", n, format!("stel i = 0\nzolang i < {n} {{ i += 1; als i > 0 {{ volgende }}; 1 }}\ni"));
+    }
+    v
+}
+
 /// combinations of nesting constructs and operator chains: `levels` nestings, each carrying a chain of `chain` operators,
 /// cycling through the given constructs. The syntax tree can be much deeper than any single construct nests.
 fn deep_combinations() -> Vec<(String, String)> {
@@ -413,6 +498,18 @@ pub fn run_check(ctx: &Ctx) -> Report {
          non-trivial = input with >=3 tokens that is not a verbatim corpus member; distinct by text",
     );
     rep.assumptions.push("a run stopped by the instruction budget is 'a loop the program itself spells out'".into());
+    // the same driver in the build `cargo build` produces (no tail calls, large frames, debug assertions), as a supervised
+    // process of its own that works while this one does
+    let plain = crate::report::current_profile() == "plain";
+    let plain_run = if !plain && !ctx.inner && std::env::var("NLV_NO_INNER").is_err() {
+        let (ctx2, mut sub) = (ctx.clone(), Report::new("C05", "exploration", ""));
+        Some(std::thread::spawn(move || {
+            crate::report::run_inner_opt(&ctx2, "plain", "C05", &mut sub, true);
+            sub
+        }))
+    } else {
+        None
+    };
     let corpus = corpus_programs();
     rep.extra.insert("corpus_programs".into(), json!(corpus.len()));
     // directed corpus
@@ -428,6 +525,8 @@ pub fn run_check(ctx: &Ctx) -> Report {
     }
     rep.sample(json!({"directed": "functie f() { 1 } f(1, 2)"}));
     // deep nesting on a thread with the default stack size
+    // this thread only waits for the threads below
+    crate::engine::note_current("done", "");
     let mut deep = deep_nesting();
     deep.extend(deep_combinations());
     for (family, text) in deep {
@@ -437,7 +536,9 @@ pub fn run_check(ctx: &Ctx) -> Report {
         let h = std::thread::Builder::new().stack_size(8 << 20).spawn(move || {
             crate::engine::install_gc_observer();
             crate::engine::SMALL_STACK.with(|s| s.set(true));
-            check_text(&tx, 3_000_000)
+            let r = check_text(&tx, 3_000_000);
+            crate::engine::note_current("done", "");
+            r
         });
         let (o, c) = h.expect("spawn").join().expect("join");
         if let Some(c) = c {
@@ -446,6 +547,37 @@ pub fn run_check(ctx: &Ctx) -> Report {
             rep.violation(v);
         }
     }
+    // inputs that are large in one dimension, on a thread with the default stack size; results are not inspected
+    for (name, text, budget) in scale_inputs(plain) {
+        rep.eval();
+        rep.count("directed:scale");
+        rep.nontrivial(&name);
+        let tx = text.clone();
+        let started = std::time::Instant::now();
+        let h = std::thread::Builder::new().stack_size(8 << 20).spawn(move || {
+            crate::engine::install_gc_observer();
+            crate::engine::SMALL_STACK.with(|s| s.set(true));
+            let o = crate::engine::run_eval_shallow(&tx, budget);
+            let c = classify(&o);
+            crate::engine::note_current("done", "");
+            (o, c)
+        });
+        let (o, c) = h.expect("spawn").join().expect("join");
+        rep.count(&format!("scale-stage:{}", stage(&o)));
+        if std::env::var("NLV_SCALE_TIMES").is_ok() {
+            eprintln!("{name}: {:.1}s {}", started.elapsed().as_secs_f64(), stage(&o));
+        }
+        if let Some(c) = c {
+            let mut v = viol("scale", c, &text, &o);
+            v.case = json!({"text": text, "family": name, "budget": budget, "shallow": true});
+            v.observed = v.observed.chars().take(600).collect();
+            rep.violation(v);
+        }
+    }
+    if std::env::var("NLV_C05_ONLY").as_deref() == Ok("scale") {
+        return rep;
+    }
+    rep.sample(json!({"scale": "stel a = []; stel i = 0; zolang i < 200000 { a = [i, a]; i += 1 }; functie f() { 1 }; f()"}));
     // complete truncation of the corpus programs
     let mut truncs = 0u64;
     for prog in &corpus {
@@ -468,9 +600,10 @@ pub fn run_check(ctx: &Ctx) -> Report {
         }
     }
     rep.count_n("truncations-complete", truncs);
-    let cases = ctx.pick(300_000u32, 8_000_000u32) / ctx.shards as u32;
+    // the unoptimised build runs a share of the generated inputs (it is an order of magnitude slower)
+    let cases = if plain { ctx.pick(40_000u32, 600_000u32) } else { ctx.pick(300_000u32, 8_000_000u32) } / ctx.shards as u32;
     let seed = ctx.seed;
-    par_shards(ctx.shards, rep, move |shard, r| {
+    let mut out = par_shards(ctx.shards, rep, move |shard, r| {
         let corpus = corpus_programs();
         let mut faulty = Profile::general();
         faulty.fault = 200;
@@ -516,7 +649,11 @@ pub fn run_check(ctx: &Ctx) -> Report {
                 }
             }
         }
-    })
+    });
+    if let Some(h) = plain_run {
+        out.merge(h.join().expect("inner run"));
+    }
+    out
 }
 
 /// delta debugging on characters: remove chunks while the failure persists
